@@ -122,12 +122,24 @@ def run(pid, tier, seed):
             # what one generator call's successive yields give (`CallTrace.add_yield_type`): the plain Union of the value
             # types, TypedDicts not merged — the only way a union of TypedDicts reaches a rewriter
             import typing
-            try:
-                u = typing.Union[tuple(get_type(o, k) for o in objs[:4])]
-                uraw = tyconv.ty_to_tree(u, tbl)
-            except (tyconv.Unrepresentable, TypeError):
-                continue
-            inputs.append((uraw, u, [(o, d) for o, d in zip(objs[:4], [b[1] for b in built[:4]])], "yield-union"))
+            tys = [get_type(o, k) for o in objs[:4]]
+            # Python's Union keeps structurally equal TypedDict classes apart (their hash is id-based), the model's union has
+            # no notion of object identity: the union as the tracer builds it is judged by the direct oracle only
+            # ("yield-union-raw"); with `==` duplicates removed it is also compared with the model ("yield-union")
+            dedup = []
+            for t in tys:
+                if not any(t == u for u in dedup):
+                    dedup.append(t)
+            wit = [(o, d) for o, d in zip(objs[:4], [b[1] for b in built[:4]])]
+            for members, origin in ((dedup, "yield-union"), (tys, "yield-union-raw")):
+                if origin == "yield-union-raw" and len(dedup) == len(tys):
+                    continue
+                try:
+                    u = typing.Union[tuple(members)]
+                    uraw = tyconv.ty_to_tree(u, tbl)
+                except (tyconv.Unrepresentable, TypeError):
+                    continue
+                inputs.append((uraw, u, wit, origin))
     drv.ask(tbl.hier())
     hier_ok = drv.ask(("hierOk",))
     chk.extra["class_table_hypotheses_hold"] = hier_ok
@@ -136,7 +148,9 @@ def run(pid, tier, seed):
     # the formal trigger / normal-form predicates agree with the property's reading on every input
     treqs, tmeta = [], []
     for raw, py, objs, origin in inputs:
-        if origin != "yield-union":      # (a plain Union of per-value types may repeat an equal TypedDict: not a normal form)
+        if origin == "yield-union-raw":
+            continue
+        if origin != "yield-union":      # (a plain Union of per-value types is not what shrink_types builds: not a normal form)
             treqs.append(("normal", raw))
             tmeta.append(("normal", raw, True))
         for name in BASE:
@@ -165,8 +179,9 @@ def run(pid, tier, seed):
                 continue
             except Exception as e:
                 chk.fail("no-crash", dict(case, error=repr(e)))
-                reqs.append(("rewrite", model_chain, raw))
-                meta.append((case, ("raise", type(e).__name__)))
+                if origin != "yield-union-raw":
+                    reqs.append(("rewrite", model_chain, raw))
+                    meta.append((case, ("raise", type(e).__name__)))
                 continue
             in_c = tyconv.canon(raw)
             changed = out_c != in_c
@@ -186,8 +201,9 @@ def run(pid, tier, seed):
             # fires only on its trigger
             if changed and not triggered(name, raw):
                 chk.fail("trigger", dict(case, result=sexp.dumps(out_c), detail="changed without its documented trigger"))
-            reqs.append(("rewrite", model_chain, raw))
-            meta.append((case, out_c))
+            if origin != "yield-union-raw":
+                reqs.append(("rewrite", model_chain, raw))
+                meta.append((case, out_c))
     for i in range(0, len(reqs), 2000):
         got = drv.ask_many(reqs[i:i + 2000])
         for g, (case, expect) in zip(got, meta[i:i + 2000]):
